@@ -159,25 +159,28 @@ def find (cmp : α → Int) (is : α → Bool) (t : T α) : Option Nat :=
 /-! ## the `lyds_tree` metadata of a (leaf-)list: where the root pointer lives -/
 
 /-- What the instances of one system-ordered (leaf-)list carry besides the sibling links: `tree` = the red-black tree the
-    metadata `lyds_tree` of the FIRST instance points to (`nil` = no metadata / no tree yet: the tree is created with the
-    second instance, `lyds_additionally_create_rb_tree`), `n` = number of instances. -/
+    metadata `lyds_tree` of the FIRST instance points to (`nil` = no tree yet: it is created by the first `lyds_insert` that finds a
+    leader, `lyds_additionally_create_rb_tree`), `n` = number of instances. -/
 structure Lyds (α : Type) where
   tree : T α
   n : Nat
 
 def Lyds.empty : Lyds α := ⟨.nil, 0⟩
 
-/-- the tree `lyds_insert` works on: the one the leader's metadata points to, or — none yet — the one built from the instances
-    present (`lyds_additionally_create_rb_tree`; here always the single instance `only`: the root, black) -/
-def Lyds.base (t : T α) (only : Option α) : T α :=
-  match t, only with
-  | .nil, some o => .node .black .nil o .nil
-  | t, _ => t
+/-- the tree `lyds_insert` works on: the one the leader's metadata points to, or — none yet (one instance only; or a list that
+    was parsed with `LYD_PARSE_ORDERED` / produced by `lyd_dup_*`, whose instances are in order but have no tree) — the one
+    `lyds_additionally_create_rb_tree` builds from the instances present `l`: the leader as black root, the others
+    `rb_insert_node`d in sibling order -/
+def Lyds.base (gt : α → α → Bool) (t : T α) (l : List α) : T α :=
+  match t with
+  | .nil => l.foldl (fun t x => Rb.insert gt x t) .nil
+  | t => t
 
-/-- `lyd_insert_node` → `lyds_insert`: no leader → plain link, no tree; else `rb_insert_node` into `Lyds.base` -/
-def Lyds.insert (gt : α → α → Bool) (only : Option α) (x : α) (s : Lyds α) : Lyds α :=
+/-- `lyd_insert_node` → `lyds_insert`: no leader → plain link, no tree; else `rb_insert_node` into `Lyds.base`
+    (`l` = the instances present, in sibling order) -/
+def Lyds.insert (gt : α → α → Bool) (l : List α) (x : α) (s : Lyds α) : Lyds α :=
   if s.n = 0 then ⟨.nil, 1⟩
-  else ⟨Rb.insert gt x (Lyds.base s.tree only), s.n + 1⟩
+  else ⟨Rb.insert gt x (Lyds.base gt s.tree l), s.n + 1⟩
 
 /-- `lyd_unlink` → `lyds_unlink(&leader, node)`: nothing if the leader has no metadata or is alone (the metadata and a
     one-node tree stay on the unlinked node and go with it); else the metadata moves to the second instance when the
@@ -199,6 +202,20 @@ def Lyds.split (i : Nat) (s : Lyds α) : Lyds α :=
     node reset to the leader = black root, the other instances inserted; `lyds_additionally_create_rb_nodes` when the pool runs
     dry) — the same tree as `lyds_additionally_create_rb_tree` builds; then `rb_insert_node` of the (reset) pooled node.  Where
     the memory of a red-black node comes from does not show in the tree: the SHAPE is that of `Lyds.insert`. -/
-def Lyds.insert2 (gt : α → α → Bool) (only : Option α) (x : α) (s : Lyds α) : Lyds α := Lyds.insert gt only x s
+def Lyds.insert2 (gt : α → α → Bool) (l : List α) (x : α) (s : Lyds α) : Lyds α := Lyds.insert gt l x s
+
+/-- `lyds_pool_add(leader_src, pool)` at the start of a merge with `LYD_MERGE_DESTRUCT`: the metadata is unlinked from the source
+    leader and the whole tree goes to the pool of free red-black nodes — the source instances keep their order, without a tree -/
+def Lyds.poolAdd (s : Lyds α) : Lyds α := ⟨.nil, s.n⟩
+
+/-- one source instance that the target lacks is moved: `lyd_unlink_ignore_lyds` on the source side (no tree there any more),
+    `lyds_insert2` on the target side.  State: ((target record, target instances), (source record, source instances)). -/
+def destructStep (gt : α → α → Bool) (st : (Lyds α × List α) × (Lyds α × List α)) (i : Nat) :
+    (Lyds α × List α) × (Lyds α × List α) :=
+  match st.2.2[i]? with
+  | none => st
+  | some x =>
+    ((st.1.1.insert2 gt st.1.2 x, st.1.2.takeWhile (fun e => !gt e x) ++ x :: st.1.2.dropWhile (fun e => !gt e x)),
+     (⟨.nil, st.2.1.n - 1⟩, st.2.2.eraseIdx i))
 
 end LyModel.Sib.Rb
